@@ -518,6 +518,9 @@ fn layer3(tier: Tier) -> L3 {
                 fixed: fs.contains(&"-F"),
                 unicode: true,
                 ban_nul: false,
+                xmode: false,
+                dotall: false,
+                swap_greed: false,
             };
             // -w and -x together: the later flag wins in rg; our list has -w before -x
             let mut pl: Vec<&str> = vec![p];
